@@ -29,6 +29,7 @@ def run(tier):
                              exhaustive_valid=3 if tier == 'quick' else 5,
                              starts=('file_input', 'eval_input'), arc_cover=True)
     rls = {}
+    osamples = []
     n_checked = n_unfaithful = 0
     arcs_seen = set()
     seen_text = set()
@@ -82,6 +83,8 @@ def run(tier):
                                'real': got[first:first + 1] if first >= 0 else got, 'spec': want[first:first + 1]},
                               {'kind': 'sentence', 'text': text, 'version': v, 'start': b['start']})
                 continue
+            if len(osamples) < (400 if tier == 'quick' else 4000) and (n_checked % 7 == 0 or '\n ' in text):
+                osamples.append([text, v, b['start'], strict_dump])
             if b['start'] == 'file_input':
                 try:
                     m2 = g.parse(text)
@@ -97,6 +100,7 @@ def run(tier):
                 arcs_seen.add((v, ev[0], len(ev[1])))
             if n_checked % 400 == 1:
                 out.sample({'text': text, 'version': v, 'start': b['start'], 'derivation': want[:4]})
+    optimised(out, osamples)
     n_pumped = pumped(out, tier, rng0)
     out.cov(pumped_sentences=n_pumped)
     out.cov(traces_validated_against_impl=n_checked, evaluations=n_checked + n_unfaithful,
@@ -121,6 +125,46 @@ PUMPS = {'not': ('not ', 'x', ''), 'minus': ('- ', 'x', ''), 'invert': ('~', 'x'
          'ternary': ('a if b else ', 'x', ''), 'power': ('x ** ', 'y', '')}
 CONTEXTS = {'stmt': ('', '\n', 'file_input'), 'assign': ('r = ', '\n', 'file_input'), 'arg': ('f(', ')\n', 'file_input'),
             'suite': ('def g():\n    return ', '\n', 'file_input'), 'eval': ('', '', 'eval_input')}
+
+
+OCHILD = r"""
+import sys, json
+sys.path.insert(0, %r)
+import parso
+res = []
+for text, v, start, _ in json.load(sys.stdin):
+    g = parso.load_grammar(version=v)
+    kw = {} if start == 'file_input' else {'start_symbol': start}
+    try:
+        res.append(g.parse(text, error_recovery=False, **kw).dump(indent=None))
+    except Exception as e:
+        res.append('raised ' + type(e).__name__)
+print(json.dumps([sys.flags.optimize, res]))
+"""
+
+
+def optimised(out, samples):
+    """the derivation must not depend on how the interpreter was started: the same sentences are parsed by a child
+    interpreter running with -O (assert statements stripped) and must give the dumps already checked in this process"""
+    import json
+    import subprocess
+    from harness.common import REPO
+    if not samples:
+        return
+    p = subprocess.run(['/venv/bin/python', '-O', '-c', OCHILD % REPO], input=json.dumps(samples).encode(),
+                       stdout=subprocess.PIPE, stderr=subprocess.PIPE, timeout=900)
+    if p.returncode:
+        raise RuntimeError('optimised child failed: ' + p.stderr.decode()[-600:])
+    flag, res = json.loads(p.stdout.decode())
+    assert flag >= 1, flag
+    bad = [(s_, r) for s_, r in zip(samples, res) if r != s_[3]]
+    if bad:
+        s_, r = bad[0]
+        out.violation('DerivationReturned|under -O', 'C06.StrictReturnsDerivation',
+                      {'text': s_[0], 'version': s_[1], 'start': s_[2], 'differing': len(bad), 'of': len(samples),
+                       'note': 'tree returned by an interpreter started with -O differs from the derivation'},
+                      {'kind': 'sentence', 'text': s_[0], 'version': s_[1], 'start': s_[2]})
+    out.cov(sentences_reparsed_under_O=len(samples))
 
 
 def pumped(out, tier, rng):
